@@ -496,7 +496,7 @@ func runC18(c *Ctx) {
 func c18ErrNil(c *Ctx) {
 	p := c.P
 	justified := map[string]string{
-		"internal/checks.RegexpCheck.Check:regexp/syntax.Parse":                              "the pattern was already compiled by the PromQL parser when the rule expression was parsed (label matcher regexp)",
+		"internal/checks.RegexpCheck.Check:regexp/syntax.Parse":                                           "the pattern was already compiled by the PromQL parser when the rule expression was parsed (label matcher regexp)",
 		"internal/parser/utils.RemoveConditions:github.com/prometheus/prometheus/promql/parser.ParseExpr": "documented precondition: the source is the String() of an already parsed expression",
 	}
 	// wrappers that may return nil: `x, _ := f(); return x`
